@@ -78,6 +78,12 @@ pub(super) unsafe fn sys_enter(
             super::ev(SimEvent::Enter { fd, to_submit, min_complete, flags, timeout_ns, ret: -1, errno: e, consumed: 0, pending: 0 });
             return fail(e);
         }
+        // K14: only the task a SINGLE_ISSUER ring is bound to may submit.
+        if to_submit > 0 && sim.rings[idx].submitter_tid.is_some_and(|t| t != unsafe { libc::gettid() }) {
+            let e = libc::EEXIST;
+            super::ev(SimEvent::Enter { fd, to_submit, min_complete, flags, timeout_ns, ret: -1, errno: e, consumed: 0, pending: 0 });
+            return fail(e);
+        }
         sim.release_consumed_states(idx);
         let pending = sim.rings[idx].sq_pending();
 
@@ -218,6 +224,7 @@ fn placeholder_ring() -> super::SimRing {
         closed: true,
         sqpoll_idle: false,
         sqpoll_auto: false,
+        submitter_tid: None,
         posted: Vec::new(),
         next_seq: 0,
         sync_cancels: 0,
@@ -445,6 +452,9 @@ impl Sim {
                     return fail(libc::EBADFD);
                 }
                 self.rings[idx].enabled = true;
+                if self.rings[idx].flags & abi::SETUP_SINGLE_ISSUER != 0 {
+                    self.rings[idx].submitter_tid = Some(unsafe { libc::gettid() });
+                }
                 Some(0)
             }
             abi::REGISTER_FILES2 => {
